@@ -77,6 +77,15 @@ def run(ctx):
     c01_deductive.run(ctx)
     from contracts import c_portrefs
     ctx.verify(c_portrefs.engine(), c_portrefs.VERIFY, min_obligations={c_portrefs.VERIFY[0].key: 10})
+    # array rule: element k of an n-array receives bits [k*w, (k+1)*w) of an n*w wide connection (all n, w, k)
+    from contracts import c_arrays
+    obs, info = c_arrays.obligations()
+    for u in info.get("unsupported", []):
+        ctx.unsupported.append((c_arrays.KEY, u))
+    if obs or not info.get("unsupported"):
+        if len(obs) < 2:
+            ctx.checker_errors.append(f"array rule: only {len(obs)} obligations generated")
+        ctx.discharge(obs, c_arrays.KEY + " [per-element loop body]", info)
     ctx.run_bounded(
         "to_proto-vs-meaning", design_family(ctx.tier, ctx.seed),
         lambda c: check_design(c),
